@@ -281,7 +281,7 @@ func retryWindowRule(r *Rule, fn *ssa.Function) int {
 		notStopKnown := func(b *ssa.BasicBlock) bool {
 			for _, cd := range condsFor(b) {
 				cd = normCond(cd)
-				if bo := asBinOp(cd.V, token.EQL, token.NEQ); bo != nil && bo.X == ssa.Value(t) && isStop(bo.Y) {
+				if bo := asBinOp(cd.V, token.EQL, token.NEQ); bo != nil && (bo.X == ssa.Value(t) && isStop(bo.Y) || bo.Y == ssa.Value(t) && isStop(bo.X)) {
 					if (bo.Op == token.NEQ) == cd.Sense {
 						return true
 					}
@@ -310,15 +310,19 @@ func retryWindowRule(r *Rule, fn *ssa.Function) int {
 		why := "no comparison of the NextBackOff result with backoff.Stop"
 		eachInstr(fn, func(in ssa.Instruction) {
 			bo, ok := in.(*ssa.BinOp)
-			if !ok || (bo.Op != token.EQL && bo.Op != token.NEQ) || !isStop(bo.Y) {
+			if !ok || (bo.Op != token.EQL && bo.Op != token.NEQ) || !(isStop(bo.Y) || isStop(bo.X)) {
 				return
+			}
+			subject := bo.X
+			if isStop(bo.X) {
+				subject = bo.Y
 			}
 			for _, ref := range referrers(bo) {
 				ifi, ok := ref.(*ssa.If)
 				if !ok {
 					continue
 				}
-				if okd, w := derives(bo.X); okd {
+				if okd, w := derives(subject); okd {
 					if cutsLoop(t.Block(), ifi.Block()) {
 						tests = append(tests, ifi)
 					} else if len(tests) == 0 {
